@@ -4,7 +4,7 @@
     front-ends (Modes/Modes.v) under the stated parser hypotheses; the completeness decision
     for all prefixes is explored, not proved ([Modes.CompleteProofs.completeness_stmt]). *)
 From Coq Require Import String.
-From BV Require Import Base.Prelude Cache.Lru Cache.Transparency gen.CacheKeys gen.IncompleteTables
+From BV Require Import Base.Prelude Cache.Lru Cache.Transparency gen.C15CacheKeys gen.C15Incomplete
   Modes.Classes Modes.Complete Modes.CompleteProofs Modes.Modes Modes.Example.
 
 (** A bounded memo table with any capacity and any eviction order is invisible when the key
